@@ -222,9 +222,11 @@ def choice_check(spec):
             ensure(not spec["replace"] and A.nblocks(spec["chunks"]) > 1, "choice raised NotImplementedError for a supported call", "raises:NotImplementedError", **sig)
             return
         v = r.compute(scheduler="sync")
+        v_again = r.compute(scheduler="sync")  # the SAME collection computed a second time
         v2 = make_rng(api, spec["seed"]).choice(a, **kw).compute(scheduler=spec["sched"])
     want_shape = sz if isinstance(sz, tuple) else ()
     ensure(np.shape(v) == want_shape, f"choice shape {np.shape(v)} != size {want_shape}", "shape-mismatch", **sig)
+    ensure(np.array_equal(v, v_again), f"choice: recomputing the same collection gave {v!r} then {v_again!r}", "recompute-differs", **sig)
     ensure(np.array_equal(v, v2), f"choice with the same seed gave {v!r} then {v2!r}", "seeded-values-differ", **sig)
     ensure(bool(np.isin(v, population).all()), f"choice returned {v!r}: not all members of the population {population.tolist()}", "not-in-population", **sig)
     if p is not None:
